@@ -1,7 +1,162 @@
-import Mutagen.Driver.Util
+import Mutagen.Driver.ScanText
+import Mutagen.Model.Handles
 namespace Mutagen.Driver.C17
+open Mutagen.Driver Mutagen.Driver.Tree Mutagen.Model.Handles
 
-/-- Model-side handler for one line of the C17 correspondence stream. -/
-def handle (_line : String) : String := "unimplemented"
+/-!
+Two kinds of lines (grammar shared with `harness/cmd/c17`):
+
+`scan <scan line>` — a scan line of `Mutagen.Driver.ScanText` (a scan of a root
+that contains links to the canary, possibly with a directory swapped for a
+link at the moment it is opened = an `od` fault).
+
+`ops <fs> <item>*` — an inode table and a script.
+```
+fs    := 'R' ino {'|' ino ':' node}
+node  := 'D' parent '[' [text '>' ino {',' text '>' ino}] ']' | 'F' hex | 'L' text
+item  := 'o:' path            Opener.OpenFile on the case's opener      → ok:<hex> | fail
+       | 'n'                  close the opener, create a new one         → -
+       | 't:' path {',' path} rsync.Transmit of the paths                → per path ok:<hex> | fail, joined by ','
+       | 'r:' path {',' path} rsync receiver with non-empty signatures   → per path sink | burn
+       | 'cf:' path | 'cd:' path | 'cl:' path   Transition creating a file / directory / link → ok | fail
+       | 'rm:' path           Transition removing a file                 → ok | fail
+       | 'mv:' d ':' name ':' d ':' name | 'ln:' d ':' name ':' text | 'put:' d ':' name ':' hex
+       | 'mk:' d ':' name | 'un:' d ':' name     adversary steps (directory inode, single name) → -
+path  := text ('%' alone = the empty path)
+```
+New inodes get the number `max + 1`.
+-/
+
+def parseEntries (s : String) : Option (List (Name × Ino)) :=
+  if s == "" then some [] else
+  (s.splitOn ",").mapM fun it =>
+    match it.splitOn ">" with
+    | [n, i] => do pure (← decText n, ← i.toNat?)
+    | _ => none
+
+def parseNode (s : String) : Option INode :=
+  match s.toList with
+  | 'D' :: r =>
+    let body := String.ofList r
+    match body.splitOn "[" with
+    | [p, rest] =>
+      if rest.endsWith "]" then do
+        let es ← parseEntries ((rest.dropEnd 1).toString)
+        pure (.dir (← p.toNat?) es)
+      else none
+    | _ => none
+  | 'F' :: r => (decHex (let h := String.ofList r; if h == "" then "-" else h)).map .file
+  | 'L' :: r => (decText (String.ofList r)).map .symlink
+  | _ => none
+
+def parseFS (s : String) : Option FS :=
+  match s.splitOn "|" with
+  | hd :: rest =>
+    match hd.toList with
+    | 'R' :: r => do
+      let root ← (String.ofList r).toNat?
+      let nodes ← rest.mapM fun it =>
+        match it.splitOn ":" with
+        | [i, n] => do pure (← i.toNat?, ← parseNode n)
+        | _ => none
+      pure { nodes := nodes, root := root }
+    | _ => none
+  | [] => none
+
+def nextIno (fs : FS) : Ino := (fs.nodes.foldl (fun m p => max m p.1) 0) + 1
+
+def content (fs : FS) (i : Ino) : String :=
+  match fs.get i with
+  | some (.file c) => encHex c
+  | _ => "?"
+
+def showOpen (fs : FS) : Except Err Ino → String
+  | .ok i => "ok:" ++ content fs i
+  | .error _ => "fail"
+
+/-- A fresh opener over a list of paths (rsync.Transmit / the receiver). -/
+def openAll (fs : FS) : List String → Opener → List (Except Err Ino) → List (Except Err Ino)
+  | [], _, acc => acc.reverse
+  | p :: rest, o, acc =>
+    let (o', r, _) := o.openFile fs p
+    openAll fs rest o' (r :: acc)
+
+def parsePaths (s : String) : Option (List String) := (s.splitOn ",").mapM decText
+
+structure St where
+  fs : FS
+  opener : Opener := {}
+
+def step (st : St) (item : String) : Option (St × String) :=
+  match item.splitOn ":" with
+  | ["o", p] => do
+    let path ← decText p
+    let (o, r, _) := st.opener.openFile st.fs path
+    pure ({ st with opener := o }, showOpen st.fs r)
+  | ["n"] => some ({ st with opener := {} }, "-")
+  | ["t", ps] => do
+    let rs := openAll st.fs (← parsePaths ps) {} []
+    pure (st, ",".intercalate (rs.map (showOpen st.fs)))
+  | ["r", ps] => do
+    let rs := openAll st.fs (← parsePaths ps) {} []
+    pure (st, ",".intercalate (rs.map fun r => match r with | .ok _ => "sink" | .error _ => "burn"))
+  | [k, p] =>
+    if k == "cf" || k == "cd" || k == "cl" then do
+      let path ← decText p
+      let (ok, _) := createAt st.fs path
+      if !ok then pure (st, "fail") else
+      match walkToParent st.fs path false with
+      | (.ok (parent, leaf), _) =>
+        let i := nextIno st.fs
+        let node : INode := if k == "cf" then .file [110, 101, 119] else if k == "cd" then .dir parent [] else .symlink "t"
+        pure ({ st with fs := (st.fs.set i node).bind parent leaf i }, "ok")
+      | _ => pure (st, "fail")
+    else if k == "rm" then do
+      let path ← decText p
+      let (ok, _) := removeFileAt st.fs path
+      if !ok then pure (st, "fail") else
+      match walkToParent st.fs path true with
+      | (.ok (parent, leaf), _) => pure ({ st with fs := st.fs.unbind parent leaf }, "ok")
+      | _ => pure (st, "fail")
+    else none
+  | ["mv", d1, n1, d2, n2] => do
+    let d1 ← d1.toNat?; let d2 ← d2.toNat?; let n1 ← decText n1; let n2 ← decText n2
+    match st.fs.entry d1 n1 with
+    | some i => pure ({ st with fs := ((st.fs.unbind d1 n1).bind d2 n2 i).reparent i d2 }, "-")
+    | none => pure (st, "-")
+  | ["ln", d, n, t] => do
+    let d ← d.toNat?; let n ← decText n; let t ← decText t
+    let i := nextIno st.fs
+    pure ({ st with fs := (st.fs.set i (.symlink t)).bind d n i }, "-")
+  | ["put", d, n, h] => do
+    let d ← d.toNat?; let n ← decText n; let c ← decHex h
+    let i := nextIno st.fs
+    pure ({ st with fs := (st.fs.set i (.file c)).bind d n i }, "-")
+  | ["mk", d, n] => do
+    let d ← d.toNat?; let n ← decText n
+    let i := nextIno st.fs
+    pure ({ st with fs := (st.fs.set i (.dir d [])).bind d n i }, "-")
+  | ["un", d, n] => do
+    let d ← d.toNat?; let n ← decText n
+    pure ({ st with fs := st.fs.unbind d n }, "-")
+  | _ => none
+
+def run (st : St) : List String → List String → Option (List String)
+  | [], acc => some acc.reverse
+  | it :: rest, acc => do
+    let (st', out) ← step st it
+    run st' rest (out :: acc)
+
+def handle (line : String) : String :=
+  match fields line with
+  | "scan" :: _ => Mutagen.Driver.ScanText.handle ((line.drop 5).toString)
+  | "ops" :: fs :: items =>
+    match parseFS fs with
+    | some fs =>
+      match run { fs := fs } items [] with
+      | some outs => if outs.isEmpty then "-" else " ".intercalate outs
+      | none => "bad-op"
+    | none => "bad-op"
+  | _ => "bad-op"
 
 end Mutagen.Driver.C17
